@@ -1221,7 +1221,8 @@ class C16(SimpleSpec):
     theorems = ["C16_audits_are_the_tagged_union", "C16_wildcards_are_the_tagged_union", "C16_nothing_non_importable",
                 "C16_provenance_tag", "C16_definition_conflict_iff", "C16_errors_persist",
                 "C16_importing_the_aggregate_gives_the_same_verdict", "C16_verdict_depends_only_on_the_record_sets",
-                "C16_entry_means_the_same_in_the_aggregate", "C16_wildcard_means_the_same_in_the_aggregate"]
+                "C16_entry_means_the_same_in_the_aggregate", "C16_wildcard_means_the_same_in_the_aggregate",
+                "C16_aggregate_defines_every_source_criterion"]
     level_text = ("Theorems about the model of do_aggregate_audits for every finite list of sources: per crate the output audits are "
                   "exactly the importable audits of the sources in source order, each with the source appended to its aggregated-from "
                   "chain (likewise wildcard audits / trusted entries), nothing non-importable gets in; merging a further definition of "
